@@ -84,9 +84,18 @@ fn gen_file(rng: &mut Rng, case: u64, thorough: bool) -> MapAst {
     }
     let nblocks = 1 + rng.below(4);
     let mapped_at = rng.below(6); // where (if at all) the first line-mapped method sits
+    // class records may repeat: the same obfuscated name, the same original name, or the
+    // whole line (concatenated partial mappings) — counts are over records, not names
+    let repeat = rng.below(4);
     for b in 0..nblocks {
         if rng.chance(4, 5) {
-            items.push(Item::Class { orig: format!("com.example.K{b}"), obf: format!("k{b}") });
+            let (o, k) = match repeat {
+                0 => (b, b % 2),
+                1 => (b % 2, b),
+                2 => (0, 0),
+                _ => (b, b),
+            };
+            items.push(Item::Class { orig: format!("com.example.K{o}"), obf: format!("k{k}") });
         }
         if rng.chance(1, 4) {
             items.push(Item::Noise(rng.pick(NOISE_CATALOGUE).to_string()));
@@ -103,6 +112,9 @@ fn gen_file(rng: &mut Rng, case: u64, thorough: bool) -> MapAst {
         for _ in 0..n {
             if rng.chance(1, 6) {
                 items.push(Item::Field { ty: "int".into(), orig: "f".into(), obf: "a".into() });
+            } else if rng.chance(1, 5) && matches!(items.last(), Some(Item::Method(_))) {
+                let prev = items.last().cloned().unwrap();
+                items.push(prev); // the same method line again
             } else {
                 items.push(Item::Method(unmapped_method(rng)));
             }
@@ -169,6 +181,16 @@ pub fn run(ctx: &Ctx, rep: &mut Reporter) {
                 rep.violation(case_idx, "folds", "metadata answers change when asked again, in another order or on a clone", d);
             }
             rep.count("files", 1);
+            {
+                let mut seen = std::collections::HashSet::new();
+                if ast.items.iter().any(|i| matches!(i, Item::Class { obf, .. } if !seen.insert(obf.clone()))) {
+                    rep.count("files_with_a_repeated_obfuscated_class_name", 1);
+                }
+                let mut seen = std::collections::HashSet::new();
+                if ast.items.iter().any(|i| matches!(i, Item::Method(m) if !seen.insert(Item::Method(m.clone()).print()))) {
+                    rep.count("files_with_a_repeated_method_line", 1);
+                }
+            }
             rep.distinct(Fp::new().bytes(&text).get());
             // where does the decisive record lie
             let nonblank: Vec<&Item> = ast.items.iter().filter(|i| !matches!(i, Item::Blank)).collect();
